@@ -71,3 +71,43 @@ Fixpoint sorted_prio (l : list entry) : Prop :=
   | x :: r => (forall y, In y r -> (prio x <= prio y)%Z) /\ sorted_prio r
   end.
 Definition same_prio (p : Z) (e : entry) : bool := (prio e =? p)%Z.
+
+(* ---- registration with route groups, stated per server and without any store of stacks: which
+   middlewares server t holds after a history (given latest-first).  Only three things matter:
+   t's own middleware() calls, and — if t is a group — what its parent held when t was created. *)
+Fixpoint nservers_rev (rh : list rop) : nat :=
+  match rh with
+  | [] => 1
+  | RGroup p :: rest => let n := nservers_rev rest in if (p <? n)%nat then S n else n
+  | _ :: rest => nservers_rev rest
+  end.
+Fixpoint nmw_rev (rh : list rop) : nat :=
+  match rh with
+  | [] => 0
+  | RMw t _ :: rest => if (t <? nservers_rev rest)%nat then S (nmw_rev rest) else nmw_rev rest
+  | _ :: rest => nmw_rev rest
+  end.
+Fixpoint spec_stack_rev (rh : list rop) (t : nat) : list entry :=
+  match rh with
+  | [] => []
+  | RMw t' p :: rest =>
+      if ((t' =? t)%nat && (t <? nservers_rev rest)%nat)%bool
+      then (spec_stack_rev rest t ++ [{| prio := p; ident := nmw_rev rest |}])%list
+      else spec_stack_rev rest t
+  | RGroup p :: rest =>
+      if ((t =? nservers_rev rest)%nat && (p <? nservers_rev rest)%nat)%bool
+      then spec_stack_rev rest p
+      else spec_stack_rev rest t
+  | RRoute _ :: rest => spec_stack_rev rest t
+  end.
+Definition nservers (h : list rop) : nat := nservers_rev (rev h).
+Definition spec_stack (h : list rop) (t : nat) : list entry := spec_stack_rev (rev h) t.
+(* the chains of the routes registered by a history, in registration order *)
+Fixpoint spec_routes_rev (rh : list rop) : list (list entry) :=
+  match rh with
+  | [] => []
+  | RRoute t :: rest =>
+      if (t <? nservers_rev rest)%nat then (spec_routes_rev rest ++ [spec_stack_rev rest t])%list else spec_routes_rev rest
+  | _ :: rest => spec_routes_rev rest
+  end.
+Definition spec_routes (h : list rop) : list (list entry) := spec_routes_rev (rev h).
